@@ -297,7 +297,7 @@ class Gen:
             if self.coin(0.5):
                 ds = []
                 for _ in range(rng.randint(1, 2)):
-                    d = {'text': self.text(), 'meta': self.meta()}
+                    d = {'text': '' if self.coin(self.hostile) else self.text(), 'meta': self.meta()}
                     if self.coin(0.3):
                         d['language'] = rng.choice(['en', 'fr'])
                     ds.append(d)
@@ -327,7 +327,9 @@ class Gen:
         frames_lex = []
         if v != '1.0' and self.coin(0.4):
             for k in range(rng.randint(1, 3)):
-                frames_lex.append({'id': f'{lexid}-sb{k}', 'subcategorizationFrame': f'frame {k} of {lexid} %s'})
+                # frame strings are unique per lexicon only: the generic ones are shared by all lexicons
+                fs = f'frame {k} of {lexid} %s' if self.coin(0.5) else ['Somebody ----s something', 'Something ----s', 'Somebody ----s'][k]
+                frames_lex.append({'id': f'{lexid}-sb{k}', 'subcategorizationFrame': fs})
         for i in range(n_ent):
             eid = f'{lexid}-w{i}'
             wf = self.s(forms_pool)
@@ -373,7 +375,7 @@ class Gen:
             if v == '1.0' and senses and self.coin(0.4):
                 fr = []
                 for k in range(rng.randint(1, 2)):
-                    f = {'subcategorizationFrame': rng.choice([f'frame A of {lexid}', f'frame B of {lexid}', f'frame {eid}-{k}'])}
+                    f = {'subcategorizationFrame': rng.choice([f'frame A of {lexid}', f'frame B of {lexid}', f'frame {eid}-{k}', 'Somebody ----s something', 'Something ----s'])}
                     if any(f['subcategorizationFrame'] == g['subcategorizationFrame'] for g in fr):
                         continue
                     if self.coin(0.6):
